@@ -7,9 +7,9 @@ package main
 // schedules; it is a data-race detector, not the deciding step of any property.
 
 import (
-	"net/http"
 	"encoding/json"
 	"fmt"
+	"net/http"
 	"os"
 	"path/filepath"
 	"strings"
